@@ -237,6 +237,10 @@ def rewrite_func_as_lambda(f: ast.FunctionDef) -> ast.Lambda:
         - It is assumed that the ast passed in won't be altered in place - no deep copy is
           done of the statement or args - they are just re-used.
     """
+    if len(f.decorator_list) > 0:
+        # What a decorator does to the function can't be seen in its source
+        raise ValueError(f'Can not use the decorated function "{f.name}" - only plain functions.')
+
     interesting_body = [
         b for b in f.body if not (isinstance(b, ast.Expr) and isinstance(b.value, ast.Constant))
     ]
@@ -249,8 +253,12 @@ def rewrite_func_as_lambda(f: ast.FunctionDef) -> ast.Lambda:
             f'Simple function must use return statement - "{f.name}" does ' "not seem to."
         )
 
-    # the arguments
-    args = f.args
+    # the arguments - a lambda's can not carry the annotations
+    args = copy.copy(f.args)
+    for kind in ("posonlyargs", "args", "kwonlyargs"):
+        setattr(args, kind, [ast.arg(arg=a.arg) for a in getattr(f.args, kind)])
+    args.vararg = ast.arg(arg=f.args.vararg.arg) if f.args.vararg is not None else None
+    args.kwarg = ast.arg(arg=f.args.kwarg.arg) if f.args.kwarg is not None else None
     ret = cast(ast.Return, interesting_body[0])
     return ast.Lambda(args, ret.value)  # type: ignore
 
